@@ -556,12 +556,8 @@ pub fn number_to_exponential(
         round_to_precision(n, fraction_digits + 1)
     } else {
         // As many digits as necessary: the shortest digits that round-trip
-        let sci = format!("{:e}", n.abs());
-        let (mantissa, exponent) = sci.split_once('e').unwrap_or((sci.as_str(), "0"));
-        (
-            mantissa.bytes().filter(u8::is_ascii_digit).collect(),
-            exponent.parse().unwrap_or(0),
-        )
+        let (digits, exponent) = crate::value::shortest_round_trip_digits(n);
+        (digits.into_bytes(), exponent)
     };
     let result = format_exponent_notation(n < 0.0, &digits, exponent);
     Ok(Guarded::unguarded(JsValue::String(JsString::from(result))))
